@@ -21,7 +21,7 @@ import time
 import vcommon as v
 
 PROP = "C15"
-INV = ["MigFaithful", "MigNoResurrection", "MigFailureClean", "MigNoLitter", "MigSourceUntouched",
+INV = ["MigFaithful", "MigNoResurrection", "MigFailureClean", "MigNoLitter", "MigSourceUntouched", "MigSourceWatched",
        "MigNoOverwrite", "MigAmbiguityRule", "MigDstIsV3", "MigDstMeta"]
 DEVIATION = "MigConforms"
 MC_INV = ["MigrationFaithful", "NonDestructive", "FailureClean", "AmbiguityRule", "MigrateTotal"]
